@@ -121,6 +121,9 @@ HistoryThm.vos HistoryThm.vok HistoryThm.required_vos: HistoryThm.v Base.vos Uni
 CsfThm.vo CsfThm.glob CsfThm.v.beautified CsfThm.required_vo: CsfThm.v Base.vo Units.vo UnitsThm.vo Contents.vo Container.vo ContainerThm.vo ContainerThm2.vo Plate.vo PlateThm.vo SizeThm.vo Dilute.vo Solve.vo SolveThm.vo
 CsfThm.vio: CsfThm.v Base.vio Units.vio UnitsThm.vio Contents.vio Container.vio ContainerThm.vio ContainerThm2.vio Plate.vio PlateThm.vio SizeThm.vio Dilute.vio Solve.vio SolveThm.vio
 CsfThm.vos CsfThm.vok CsfThm.required_vos: CsfThm.v Base.vos Units.vos UnitsThm.vos Contents.vos Container.vos ContainerThm.vos ContainerThm2.vos Plate.vos PlateThm.vos SizeThm.vos Dilute.vos Solve.vos SolveThm.vos
+CsfInstr.vo CsfInstr.glob CsfInstr.v.beautified CsfInstr.required_vo: CsfInstr.v Base.vo Units.vo UnitsThm.vo Contents.vo Container.vo ContainerThm.vo ContainerThm2.vo Plate.vo PlateThm.vo SizeThm.vo Dilute.vo Solve.vo SolveThm.vo CsfThm.vo
+CsfInstr.vio: CsfInstr.v Base.vio Units.vio UnitsThm.vio Contents.vio Container.vio ContainerThm.vio ContainerThm2.vio Plate.vio PlateThm.vio SizeThm.vio Dilute.vio Solve.vio SolveThm.vio CsfThm.vio
+CsfInstr.vos CsfInstr.vok CsfInstr.required_vos: CsfInstr.v Base.vos Units.vos UnitsThm.vos Contents.vos Container.vos ContainerThm.vos ContainerThm2.vos Plate.vos PlateThm.vos SizeThm.vos Dilute.vos Solve.vos SolveThm.vos CsfThm.vos
 C09Thm.vo C09Thm.glob C09Thm.v.beautified C09Thm.required_vo: C09Thm.v Base.vo Units.vo UnitsThm.vo Contents.vo Container.vo ContainerThm.vo ContainerThm2.vo Dilute.vo Solve.vo SolveThm.vo Plate.vo PlateThm.vo Prog.vo HistoryThm.vo Recipe.vo RecipeThm.vo
 C09Thm.vio: C09Thm.v Base.vio Units.vio UnitsThm.vio Contents.vio Container.vio ContainerThm.vio ContainerThm2.vio Dilute.vio Solve.vio SolveThm.vio Plate.vio PlateThm.vio Prog.vio HistoryThm.vio Recipe.vio RecipeThm.vio
 C09Thm.vos C09Thm.vok C09Thm.required_vos: C09Thm.v Base.vos Units.vos UnitsThm.vos Contents.vos Container.vos ContainerThm.vos ContainerThm2.vos Dilute.vos Solve.vos SolveThm.vos Plate.vos PlateThm.vos Prog.vos HistoryThm.vos Recipe.vos RecipeThm.vos
@@ -151,9 +154,9 @@ Props/C12.vos Props/C12.vok Props/C12.required_vos: Props/C12.v Base.vos Units.v
 Props/C18.vo Props/C18.glob Props/C18.v.beautified Props/C18.required_vo: Props/C18.v Base.vo Units.vo UnitsThm.vo Contents.vo Container.vo ContainerThm.vo ContainerThm2.vo Plate.vo ConfigThm.vo PlateThm.vo Dilute.vo Solve.vo Prog.vo ConfigThm2.vo Recipe.vo RecipeThm.vo ConfigThm3.vo
 Props/C18.vio: Props/C18.v Base.vio Units.vio UnitsThm.vio Contents.vio Container.vio ContainerThm.vio ContainerThm2.vio Plate.vio ConfigThm.vio PlateThm.vio Dilute.vio Solve.vio Prog.vio ConfigThm2.vio Recipe.vio RecipeThm.vio ConfigThm3.vio
 Props/C18.vos Props/C18.vok Props/C18.required_vos: Props/C18.v Base.vos Units.vos UnitsThm.vos Contents.vos Container.vos ContainerThm.vos ContainerThm2.vos Plate.vos ConfigThm.vos PlateThm.vos Dilute.vos Solve.vos Prog.vos ConfigThm2.vos Recipe.vos RecipeThm.vos ConfigThm3.vos
-Props/C19.vo Props/C19.glob Props/C19.v.beautified Props/C19.required_vo: Props/C19.v Base.vo Units.vo UnitsThm.vo Contents.vo Container.vo Instr.vo ContainerThm.vo Dilute.vo Instr2.vo Solve.vo InstrSol.vo
-Props/C19.vio: Props/C19.v Base.vio Units.vio UnitsThm.vio Contents.vio Container.vio Instr.vio ContainerThm.vio Dilute.vio Instr2.vio Solve.vio InstrSol.vio
-Props/C19.vos Props/C19.vok Props/C19.required_vos: Props/C19.v Base.vos Units.vos UnitsThm.vos Contents.vos Container.vos Instr.vos ContainerThm.vos Dilute.vos Instr2.vos Solve.vos InstrSol.vos
+Props/C19.vo Props/C19.glob Props/C19.v.beautified Props/C19.required_vo: Props/C19.v Base.vo Units.vo UnitsThm.vo Contents.vo Container.vo Instr.vo ContainerThm.vo Dilute.vo Instr2.vo Solve.vo InstrSol.vo CsfInstr.vo
+Props/C19.vio: Props/C19.v Base.vio Units.vio UnitsThm.vio Contents.vio Container.vio Instr.vio ContainerThm.vio Dilute.vio Instr2.vio Solve.vio InstrSol.vio CsfInstr.vio
+Props/C19.vos Props/C19.vok Props/C19.required_vos: Props/C19.v Base.vos Units.vos UnitsThm.vos Contents.vos Container.vos Instr.vos ContainerThm.vos Dilute.vos Instr2.vos Solve.vos InstrSol.vos CsfInstr.vos
 Props/C06.vo Props/C06.glob Props/C06.v.beautified Props/C06.required_vo: Props/C06.v Base.vo Units.vo UnitsThm.vo GenBase.vo gen/UnitsTie.vo
 Props/C06.vio: Props/C06.v Base.vio Units.vio UnitsThm.vio GenBase.vio gen/UnitsTie.vio
 Props/C06.vos Props/C06.vok Props/C06.required_vos: Props/C06.v Base.vos Units.vos UnitsThm.vos GenBase.vos gen/UnitsTie.vos
